@@ -936,6 +936,11 @@ def build_case(node, modname, layers):
         if 'ilevel' in t:
             inst.level = t['ilevel']
         suite.addTest(inst)
+    if node.get('class_error'):
+        def setUpClass(klass, _exc=node['class_error'], _nm=node['name']):
+            emit('class_fixture_error', cls=_nm)
+            raise make_exc(_exc, 'class fixture of %s failed on purpose' % _nm)
+        cls.setUpClass = classmethod(setUpClass)
     if node.get('class_skip'):
         # (only reached when something keeps unittest's class fixtures alive, see _SuiteLike)
         def setUpClass(klass):
@@ -1014,6 +1019,10 @@ def build_tree(node, modname, layers):
         for ch in node['ch']:
             suite.addTest(build_tree(ch, modname, layers))
         _decorate(suite, node, layers)
+        if node.get('wrap') == 'suitelike':
+            wrapped = _SuiteLike(suite, '%s.%s' % (modname, node.get('name', 'SL')))
+            _decorate(wrapped, node, layers)
+            return wrapped
         return suite
     if t == 'c':
         cls, suite = build_case(node, modname, layers)
